@@ -16,7 +16,7 @@ import (
 )
 
 func init() {
-	register(&Property{ID: "C05", Instr: false, Gen: genC05})
+	register(&Property{ID: "C05", Instr: true, Gen: genC05})
 }
 
 type cancelState struct {
@@ -214,6 +214,17 @@ func genC05(tier string) []Scenario {
 			out = append(out, cancelScenario(fmt.Sprintf("%s-inside shape#%d=%s", kind, i, d), d, c05Kinds, deadline, false, i%2 == 0))
 			if !deep {
 				out = append(out, cancelScenario(fmt.Sprintf("%s-before shape#%d=%s", kind, i, d), d, c05Kinds, deadline, true, i%2 == 1))
+			}
+		}
+	}
+	// cancellation arriving from ANOTHER goroutine while the run sits in a retry wait (virtual
+	// time): the run is cut short there and must report the context's error, bare and inside flows
+	for _, kind := range []int{kBase, kFuncR} {
+		for _, w := range []time.Duration{time.Millisecond, time.Hour} {
+			for _, inFlow := range []bool{false, true} {
+				for j := 0; j < 2; j++ {
+					out = append(out, waitScn{kind: kind, w: w, n: 3, cancelJ: j, d: w / 2, bound: 1, inFlow: inFlow}.scenario())
+				}
 			}
 		}
 	}
